@@ -93,6 +93,19 @@ func (c c20) Generate(seed uint64, tier string, idx int) *core.Plan {
 	if !regEmpty {
 		add([]byte{})
 	}
+	// names with zero bytes inside (the statement excludes only names that END in a zero byte)
+	if len(names) > 0 && len(names[0]) > 0 {
+		n := names[0]
+		add(append(append(append([]byte(nil), n...), 0x00), 0x01))
+		add(append(append(append([]byte(nil), n...), 0x00), n...))
+	}
+	if idx%2 == 0 {
+		z := []byte(OriginName(int64(r.Intn(1<<30)), 5))
+		z = append(append(z, 0x00), []byte(OriginName(int64(r.Intn(1<<30)), r.Range(1, 40)))...)
+		p.Steps = append(p.Steps, core.Step{Op: "origin", S: []string{core.Hex(z)}, A: []int64{0, int64(len(z)), 0, 1, 150}})
+		add(z)
+		add(z[:5])
+	}
 	// same-block-count companions of the first name: another name of the same padded size
 	if len(names) > 0 {
 		l := len(names[0])
